@@ -725,3 +725,35 @@ def run_overload_defaults(prog, rep, floor=3):
     if n < floor:
         raise AnalysisBroken('R-DF-OVERLOAD: only %d sibling overload groups found' % n)
     return rule
+
+
+def run_count_respected(prog, rep):
+    """DataFrame::writeColumn / readColumn: the number of rows the caller asked for is what the backend is given; the parameter is
+    only replaced by the vector's length where the caller left it at 0 ('all')"""
+    rule = rep.rule('R-DF-COUNT', 'DataFrame::writeColumn hands the caller\'s count to the backend; count is replaced by vals.size() only under count == 0', floor=1)
+    sem = Sem(prog)
+    seen = set()
+    n = 0
+    for f in sorted(prog.fns('nix::DataFrame::writeColumn'), key=lambda f: (f.file, f.line, f.sig)):
+        if f.body is None or (f.file, f.line) in seen or 'string' not in f.params[0]['type']:
+            continue
+        seen.add((f.file, f.line))
+        cp = [p for p in f.params if p['name'] == 'count']
+        if not cp:
+            continue
+        n += 1
+        cv = ('v', cp[0]['lid'], 'count')
+        probs = []
+        for a in f.walk():
+            if (a.k == 'assign' or (a.k == 'call' and a.get('op') == '=')) and len(a.c) == 2 and term(unwrap(a.c[0])) == cv:
+                facts = sem.facts_at(f, a.id)
+                zero = any(isinstance(t, tuple) and len(t) == 4 and t[0] == 'b' and cv in t[2:4] and ('k', 0) in t[2:4] and ((t[1] == '==' and pol) or (t[1] == '!=' and not pol)) for t, pol in facts)
+                if not zero:
+                    probs.append('count is overwritten with %s at line %s although the caller may have asked for fewer rows: the rows behind the requested window are overwritten with the rest of the vector' % (a.c[1].src(30), a.l))
+        bc = [c for c in f.calls() if (c.callee or {}).get('name') == 'writeColumn' and ((c.callee or {}).get('cls') or '').startswith('nix::base::I')]
+        if not bc or cv not in [term(unwrap(x)) for x in real_args(bc[0]) if x is not None]:
+            probs.append('the backend is not given the count parameter')
+        rule.check(not probs, 'DataFrame::writeColumn(name)|count', rep.where(f), f.label(), 'count replaced only when it is 0, then handed to the backend', '; '.join(probs))
+    if n < 1:
+        raise AnalysisBroken('R-DF-COUNT: DataFrame::writeColumn(name, ...) not found')
+    return rule
